@@ -195,6 +195,9 @@ def _generate(ctx):
             else:
                 ops.append(['unrel', r.randint(0, 6), r.choice(['R11', 'R12'])])
         yield {'shape': 'newref', 'np': np_, 'nq': nq, 'ops': ops, 'fam': 'newref'}
+    for nk in (2, 3):
+        for seed in range(ctx.pick(40, 400)):
+            yield {'shape': 'compound', 'nk': nk, 'seed': seed, 'len': 12, 'ops': [], 'fam': 'compound'}
     for rounds in (2, 5):
         for batch in (1, 3, 20):
             for which in (0, 1, 2):
@@ -388,7 +391,63 @@ def _run_churn(case):
             'model_line': None}
 
 
+def _run_compound(case):
+    """D-only: an association formalised over a COMPOUND key (two or three key pairs, identifying values all different):
+    every referential attribute of a related instance reads ITS OWN identifying attribute of the partner, unset when
+    unrelated; navigation is symmetric.  (The Lean model gives a class one own id, so this shape has no K leg.)"""
+    import random as _random
+    import xtuml as x
+    r = _random.Random(case['seed'])
+    nk = case['nk']
+    keys = ['K%d' % i for i in range(nk)]
+    refs = ['S_%s' % k for k in keys]
+    m = x.MetaModel(x.IntegerGenerator())
+    m.define_class('S', [(k, 'integer') for k in keys])
+    m.define_class('B', [('Id', 'unique_id')] + [(rk, 'integer') for rk in refs])
+    m.define_association('R1', 'B', refs, True, True, '', 'S', keys, False, True, '').formalize()
+    shelves = [m.new('S', **dict((k, 100 * (i + 1) + 10 * j + r.randint(0, 9)) for j, k in enumerate(keys))) for i in range(3)]
+    books = [m.new('B') for _ in range(4)]
+    link = {}
+    fails = []
+
+    def check(step):
+        for bi, b in enumerate(books):
+            s = link.get(bi)
+            for rk, k in zip(refs, keys):
+                want = getattr(shelves[s], k) if s is not None else None
+                got = getattr(b, rk)
+                if got != want:
+                    fails.append({'sig': 'referential-read', 'what': 'compound key %s: after %s book %d (%s) reads %s = %r, the identifying '
+                                  'attribute %s of its shelf is %r' % (list(zip(refs, keys)), step, bi,
+                                                                       'on shelf %d' % s if s is not None else 'unrelated', rk, got, k, want)})
+            nav = x.navigate_one(b).S[1]()
+            if (nav is not None) != (s is not None) or (s is not None and nav is not shelves[s]):
+                fails.append({'sig': 'links-differ', 'what': 'compound key: after %s book %d navigates to %r' % (step, bi, nav)})
+        for si, s in enumerate(shelves):
+            back = sorted(books.index(b) for b in x.navigate_many(s).B[1]())
+            if back != sorted(bi for bi, sj in link.items() if sj == si):
+                fails.append({'sig': 'asymmetric', 'what': 'compound key: after %s shelf %d navigates to books %s' % (step, si, back)})
+    steps = []
+    for _ in range(case['len']):
+        bi, si = r.randrange(len(books)), r.randrange(len(shelves))
+        if link.get(bi) is None:
+            x.relate(books[bi], shelves[si], 1)
+            link[bi] = si
+            steps.append(('relate', bi, si))
+        else:
+            x.unrelate(books[bi], shelves[link[bi]], 1)
+            steps.append(('unrelate', bi, link[bi]))
+            link[bi] = None
+        check(steps)
+        if fails:
+            break
+    return {'obs': [], 'd_fail': fails[:3], 'nontrivial': True, 'key': 'compound/%r' % (sorted(case.items()),), 'stats': {'fam_compound': 1},
+            'model_line': None}
+
+
 def run_impl(case):
+    if case.get('fam') == 'compound':
+        return _run_compound(case)
     if case.get('fam') == 'newref':
         return _run_newref(case)
     if case.get('fam') == 'churn':
@@ -524,7 +583,7 @@ def run_impl(case):
 
 
 def model_line(case):
-    if case.get('fam') in ('newref', 'churn'):
+    if case.get('fam') in ('newref', 'churn', 'compound'):
         return None              # D-only families
     return mc.meta_line(mc.SHAPES[case['shape']], case['ops'])
 
